@@ -191,6 +191,18 @@ type Exec struct {
 	MaxSteps  int
 	pathConds []string
 	fiCache   map[*ssa.Function]*fnInfo
+	threads     []*thread
+	cur         int
+	threadPanic interface{}
+	switches    int
+	maxSwitches int
+	mainJoining bool
+	schedTrace  []int
+	syncVC      map[interface{}][]int
+	accesses    map[*Value]*access
+	raceCheck   bool
+	inModelCode bool
+	racesSeen   map[string]bool
 	runningInit int
 	initDirect  *ssa.Function
 }
@@ -245,10 +257,16 @@ func (ex *Exec) RunPath(fn *ssa.Function, item WorkItem) (res PathResult) {
 	ex.steps = 0
 	ex.posStack = ex.posStack[:0]
 	ex.pathConds = nil
+	ex.initThreads()
+	ex.maxSwitches = 3
+	ex.mainJoining = false
+	ex.raceCheck = false
+	ex.racesSeen = nil
 	res.Reached = map[string]bool{}
 	ex.res = &res
 	ex.S.BeginPath()
 	defer func() {
+		ex.killThreads()
 		ex.S.EndPath()
 		res.Trace = append([]uint64(nil), ex.trace...)
 		if r := recover(); r != nil {
